@@ -522,3 +522,10 @@ _roundtrip('NextProtocol', NP, NP, 'NextProtocol', 1, _eq_fields('next_proto'))
 _roundtrip('Heartbeat', HB, HB, 'Heartbeat', 0, _eq_fields('message_type', 'payload', 'padding'))
 # ApplicationData.parse takes the record body as a whole (p.bytes) and does not move the index
 _roundtrip('ApplicationData', AD, AD, 'ApplicationData', 0, _eq_fields('bytes'), consumes=False)
+
+
+for _p in PROP:
+    REG.xchecks.append({'prop': _p, 'module': 'specs.messages_simple', 'name': 'messages_simple', 'function': M + 'HandshakeMsg.postWrite'})
+REG.note('C15', 'assumptions', 'message round trips: well-formedness wf_K from the RFCs -- Finished.verify_data has the size the version '
+         'prescribes; CertificateVerify.signatureAlgorithm is a pair from TLS 1.2 on and absent before; fields fit their widths '
+         '(otherwise write raises ValueError: proved); handshake messages are parsed from offset 1 (msg_type byte read by the caller)')
